@@ -28,6 +28,14 @@ fn main() {
         s.require("ctx:tokio-multi-thread", 30);
         s.require("ctx:tokio-current-thread", 30);
         s.require("recv:stalled", 20);
+            // artifacts of the libFuzzer target `chan_c08` (engine E6 over E2) are replayed through the same entry
+            s.manual("fuzz-artifact", Vec::<Vec<u8>>::new(), |bytes, cx| {
+                cx.nontrivial(true);
+                match chan::fuzz::entry(bytes, Prop::C08) {
+                    Ok(()) => Ok(()),
+                    Err(f) => cx.fail(f.sig, format!("{}; decoded case: {:?}", f.msg, chan::fuzz::decode(bytes))),
+                }
+            });
             s.gen("e2-random", s.n(400_000, 12_000_000), || e2::case(e2::W_C08), |c, cx| e2::check(c, Prop::C08, cx));
             let max_len = if s.quick() { 6 } else { 7 };
             s.enumerate("e2-small-scope", e2::small_cases(max_len, &[1, 2]), |c, cx| e2::check(&c.to_case(), Prop::C08, cx));
